@@ -10,6 +10,7 @@ Conventions (DESIGN.md 4.1):
  * JSON objects become TLA+ records, arrays become sequences; there are no
    nulls and no empty objects.
 """
+import json
 import re
 from typing import Dict, List, Optional
 
@@ -494,7 +495,6 @@ def whole_ir_report(m: gtirb.Module, orig_cfg=None) -> dict:
     """Observer facts for the whole-IR validator (C05): aux-data closure,
     addresses, protobuf round trip (done here, judged in TLA+)."""
     import hashlib
-import json
     import io
     import json as _json
 
